@@ -1,19 +1,28 @@
 (* C14: the kernel's interest set is in sync with libuv's registry whenever
-   epoll_pwait is called (invariant KI), under the strict usage discipline:
-   one live handle per descriptor number, a descriptor is closed only after
-   the handles on it.  Counter-examples without the discipline are at the end. *)
+   epoll_pwait is called (invariant KI), for every script the guards of the script
+   language admit (the documented rules of uv_poll: a descriptor is not closed while
+   an active poll handle - or a stream-like watcher that has not been closed - uses
+   it; a handle is started only on an open descriptor; stream-like watchers own
+   their descriptor number exclusively). *)
 From UV Require Import Lib.Base Model.IoWatch Proofs.IoWatchProofs Proofs.IoWatchProofsN.
 Local Open Scope Z_scope.
 
 Definition livei (s : state) (i : nat) : Prop :=
   (i < length (hs s))%nat /\ h_closed (hget s i) = false.
+Definition rawi (s : state) (i : nat) : Prop := h_kind (hget s i) = KRaw.
 
 Definition synced (s : state) (fd : Z) (i : nat) : Prop :=
   h_ev (hget s i) = h_pev (hget s i) /\
   exists o, fdt s fd = Some o /\ ep s fd o = Some (h_pev (hget s i)).
 
-Record KI (s : state) : Prop := mkKI {
-  k_strict : strict s = true;
+(* who accounts for a kernel registration under descriptor number fd: the watcher
+   registered there, or a stream-like watcher that stopped all events (it keeps its
+   descriptor until it is closed), or - transiently, between uv__io_stop and the
+   invalidation in uv__poll_stop - the number [xf] *)
+Definition just (xf : option Z) (s : state) (fd : Z) : Prop :=
+  reg s fd <> None \/ (exists i, livei s i /\ rawi s i /\ h_fd (hget s i) = fd) \/ xf = Some fd.
+
+Record KIx (xf : option Z) (s : state) : Prop := mkKI {
   k_abort : aborted s = false;
   k_sq : sq s = [];
   k_pev : forall i, mand (h_pev (hget s i)) ERRHUP = m0;
@@ -26,12 +35,13 @@ Record KI (s : state) : Prop := mkKI {
             exists o, fdt s fd = Some o /\ ep s fd o <> None;
   k_unreg : forall i, reg s (h_fd (hget s i)) <> Some i ->
             h_pev (hget s i) = m0 /\ h_ev (hget s i) = m0;
-  k_uniq : forall i j, livei s i -> livei s j -> h_fd (hget s i) = h_fd (hget s j) -> i = j;
-  k_fdopen : forall i, livei s i -> fdt s (h_fd (hget s i)) <> None;
-  k_ep : forall fd o m, ep s fd o = Some m ->
-            fdt s fd = Some o /\ exists i, livei s i /\ h_fd (hget s i) = fd;
+  k_rawx : forall i j, livei s i -> livei s j -> rawi s i ->
+            h_fd (hget s i) = h_fd (hget s j) -> i = j;
+  k_regopen : forall fd i, reg s fd = Some i -> fdt s fd <> None;
+  k_ep : forall fd o m, ep s fd o = Some m -> fdt s fd = Some o /\ just xf s fd;
   k_pairs : forall fd o, fdt s fd = Some o -> In (fd, o) (pairs s)
 }.
+Notation KI := (KIx None).
 
 (* what must hold when epoll_pwait is called *)
 Definition SYNC (s : state) : Prop :=
@@ -40,57 +50,77 @@ Definition SYNC (s : state) : Prop :=
   (forall fd o m, ep s fd o = Some m ->
      fdt s fd = Some o /\ exists i, livei s i /\ h_fd (hget s i) = fd).
 
-Definition kview (h : handle) := (h_fd h, h_pev h, h_ev h, h_closed h).
+Definition kview (h : handle) := (h_kind h, h_fd h, h_pev h, h_ev h, h_closed h).
 
-Lemma KI_ext s s' :
+Lemma KI_ext xf s s' :
   length (hs s') = length (hs s) -> (forall i, kview (hget s' i) = kview (hget s i)) ->
   reg s' = reg s -> wq s' = wq s -> fdt s' = fdt s -> (forall x y, ep s' x y = ep s x y) -> pairs s' = pairs s ->
-  sq s' = sq s -> strict s' = strict s -> aborted s' = aborted s -> KI s -> KI s'.
+  sq s' = sq s -> aborted s' = aborted s -> KIx xf s -> KIx xf s'.
 Proof.
-  intros Hl Hv Hr Hw Hf He Hp Hq Hs Ha K.
+  intros Hl Hv Hr Hw Hf He Hp Hq Ha K.
+  assert (Vk : forall i, h_kind (hget s' i) = h_kind (hget s i)) by (intro i; pose proof (Hv i) as X; unfold kview in X; congruence).
   assert (Vf : forall i, h_fd (hget s' i) = h_fd (hget s i)) by (intro i; pose proof (Hv i) as X; unfold kview in X; congruence).
   assert (Vp : forall i, h_pev (hget s' i) = h_pev (hget s i)) by (intro i; pose proof (Hv i) as X; unfold kview in X; congruence).
   assert (Ve : forall i, h_ev (hget s' i) = h_ev (hget s i)) by (intro i; pose proof (Hv i) as X; unfold kview in X; congruence).
   assert (Vc : forall i, h_closed (hget s' i) = h_closed (hget s i)) by (intro i; pose proof (Hv i) as X; unfold kview in X; congruence).
   assert (Vl : forall i, livei s' i <-> livei s i) by (intro i; unfold livei; rewrite Hl, Vc; tauto).
-  destruct K. constructor; try congruence.
+  assert (Vr : forall i, rawi s' i <-> rawi s i) by (intro i; unfold rawi; rewrite Vk; tauto).
+  destruct K. constructor.
+  - congruence.
+  - congruence.
+  - intro i. rewrite Vp. auto.
   - intros fd i H. rewrite Hr in H. rewrite Vl, Vf, Vp. auto.
   - intros fd i H. rewrite Hr in H. rewrite Hw. unfold synced. rewrite Ve, Vp, Hf. setoid_rewrite He. apply k_sync0; auto.
+  - congruence.
   - intros i H. rewrite Hw in H. rewrite Hr, Vf. auto.
   - intros fd i H H2. rewrite Hr in H. rewrite Ve in H2. rewrite Hf. setoid_rewrite He. eauto.
   - intros i H. rewrite Hr, Vf in H. rewrite Vp, Ve. auto.
-  - intros i j Hi Hj. rewrite !Vl in *. rewrite !Vf. auto.
-  - intros i Hi. rewrite Vl in Hi. rewrite Hf, Vf. auto.
-  - intros fd o m H. rewrite He in H. rewrite Hf. destruct (k_ep0 _ _ _ H) as [X [i [Y Z]]]. split; auto.
-    exists i. rewrite Vl, Vf. auto.
+  - intros i j Hi Hj Hk. rewrite !Vl in *. rewrite Vr in Hk. rewrite !Vf. auto.
+  - intros fd i H. rewrite Hr in H. rewrite Hf. eauto.
+  - intros fd o m H. rewrite He in H. rewrite Hf. destruct (k_ep0 _ _ _ H) as [X Y]. split; auto.
+    unfold just in *. rewrite Hr. destruct Y as [Y|[[i [Y1 [Y2 Y3]]]|Y]]; auto.
+    right. left. exists i. rewrite Vl, Vr, Vf. auto.
   - intros fd o H. rewrite Hf in H. rewrite Hp. auto.
 Qed.
 
-Lemma KI_same s s' :
+Lemma KI_same xf s s' :
   hs s' = hs s -> reg s' = reg s -> wq s' = wq s -> fdt s' = fdt s -> ep s' = ep s -> pairs s' = pairs s ->
-  sq s' = sq s -> strict s' = strict s -> aborted s' = aborted s -> KI s -> KI s'.
+  sq s' = sq s -> aborted s' = aborted s -> KIx xf s -> KIx xf s'.
 Proof.
   intros Hh.
   assert (A1 : length (hs s') = length (hs s)) by (rewrite Hh; auto).
   assert (A2 : forall i, kview (hget s' i) = kview (hget s i)) by (intro i; unfold hget; rewrite Hh; auto).
-  intros Hr Hw Hf He. intros. apply (KI_ext s s'); auto. intros; rewrite He; auto.
+  intros Hr Hw Hf He. intros. apply (KI_ext xf s s'); auto. intros; rewrite He; auto.
 Qed.
 
-Lemma KI_init r : KI (sinit r true).
+Lemma KI_init r st : KI (sinit r st).
 Proof.
   constructor; cbn; auto; intros; try discriminate; try contradiction.
   - unfold hget; cbn. destruct i; reflexivity.
   - constructor.
   - unfold hget; cbn. destruct i; auto.
   - destruct H as [H _]. cbn in H. lia.
-  - destruct H as [H _]. cbn in H. lia.
+Qed.
+
+Lemma KIx_weaken xf s : KI s -> KIx xf s.
+Proof.
+  intros K. destruct K. constructor; auto. intros fd o m H. destruct (k_ep0 _ _ _ H) as [X Y]. split; auto.
+  unfold just in *. destruct Y as [Y|[Y|Y]]; auto. discriminate.
+Qed.
+
+Lemma KIx_of_reg fd s : KIx (Some fd) s -> reg s fd <> None -> KI s.
+Proof.
+  intros K Hr. destruct K. constructor; auto. intros fd' o m H. destruct (k_ep0 _ _ _ H) as [X Y]. split; auto.
+  unfold just in *. destruct Y as [Y|[Y|Y]]; auto. inversion Y; subst. auto.
 Qed.
 
 Lemma KI_SYNC s : KI s -> wq s = [] -> SYNC s.
 Proof.
   intros K Hw. split.
-  - intros fd i H. destruct (k_sync s K _ _ H) as [Hin|[_ Hs]]; auto. rewrite Hw in Hin. contradiction.
-  - apply (k_ep s K).
+  - intros fd i H. destruct (k_sync _ s K _ _ H) as [Hin|[_ Hs]]; auto. rewrite Hw in Hin. contradiction.
+  - intros fd o m H. destruct (k_ep _ s K _ _ _ H) as [X Y]. split; auto.
+    destruct Y as [Y|[[i [Y1 [_ Y3]]]|Y]]; [|eauto|discriminate].
+    destruct (reg s fd) as [i|] eqn:Hr; [|congruence]. destruct (k_reg _ s K _ _ Hr) as [A [B _]]. eauto.
 Qed.
 
 Lemma livei_same s s' i :
@@ -109,11 +139,15 @@ Qed.
 Lemma reg_dec s fd i : {reg s fd = Some i} + {reg s fd <> Some i}.
 Proof. destruct (reg s fd) as [j|]; [destruct (Nat.eq_dec j i); [left|right]; congruence|right; discriminate]. Qed.
 
-(* uv__io_stop keeps the invariant (it may leave a stale kernel entry behind,
-   which belongs to a live handle whose descriptor is open) *)
-Lemma KI_io_stop s i ev : KI s -> (i < length (hs s))%nat -> KI (io_stop s i ev).
+Definition xraw (s : state) (i : nat) : option Z :=
+  match h_kind (hget s i) with KRaw => None | KPoll => Some (h_fd (hget s i)) end.
+
+(* uv__io_stop keeps the invariant; a stream-like watcher may leave a stale kernel
+   entry behind (it is live and owns the descriptor); for a poll handle the number is
+   exempted until uv__poll_stop has invalidated it *)
+Lemma KI_io_stop s i ev : KI s -> livei s i -> KIx (xraw s i) (io_stop s i ev).
 Proof.
-  intros K Hl.
+  intros K Hli. destruct Hli as [Hl Hc0].
   destruct (io_stop_same s i ev) as [[_ [_ [_ [_ [Sq [_ [Ss Sa]]]]]]] [Sf [Se Sp]]].
   assert (Hself := io_stop_self s i ev Hl). cbv zeta in Hself.
   assert (Hreg := fun fd => io_stop_reg s i ev fd Hl). cbv zeta in Hreg.
@@ -125,21 +159,35 @@ Proof.
   { intro j. destruct (Nat.eq_dec j i) as [->|]; [|rewrite Hoth; auto]. rewrite Hself. destruct (mzero p); reflexivity. }
   assert (Hcl : forall j, h_closed (hget s' j) = h_closed (hget s j)).
   { intro j. destruct (Nat.eq_dec j i) as [->|]; [|rewrite Hoth; auto]. rewrite Hself. destruct (mzero p); reflexivity. }
+  assert (Hkd : forall j, h_kind (hget s' j) = h_kind (hget s j)).
+  { intro j. destruct (Nat.eq_dec j i) as [->|]; [|rewrite Hoth; auto]. rewrite Hself. destruct (mzero p); reflexivity. }
   assert (Hlv : forall j, livei s' j <-> livei s j) by (intro j; apply livei_same; auto).
+  assert (Hrw : forall j, rawi s' j <-> rawi s j) by (intro j; unfold rawi; rewrite Hkd; tauto).
   assert (Hsub : forall fd j, reg s' fd = Some j -> reg s fd = Some j).
   { intros fd j Hc. rewrite Hreg in Hc. destruct (_ && _ && _); [discriminate|auto]. }
+  assert (Hjust : forall fd, just None s fd -> just (xraw s i) s' fd).
+  { intros fd [Y|[[j [Y1 [Y2 Y3]]]|Y]]; [|right; left; exists j; rewrite Hlv, Hrw, Hfd; auto|discriminate].
+    destruct (reg s' fd) as [j|] eqn:Hr'; [left; congruence|].
+    destruct (reg s fd) as [j|] eqn:Hr; [|congruence].
+    assert (fd = h_fd (hget s i) /\ j = i) as [-> ->].
+    { rewrite Hreg, Hr in Hr'. destruct (mzero p); cbn [andb] in Hr'; [|discriminate].
+      destruct (Z.eqb_spec fd (h_fd (hget s i))) as [E|E]; cbn [andb] in Hr'; [|discriminate]. subst fd.
+      rewrite Hr in Hr'. destruct (Nat.eqb_spec i j); [auto|discriminate]. }
+    unfold xraw. destruct (h_kind (hget s i)) eqn:Hk; [right; right; auto|].
+    right. left. exists i. rewrite Hlv, Hrw, Hfd. split_all; auto. split; auto. }
   destruct K.
   destruct (mzero p) eqn:Hz.
-  - (* stopped completely *)
-    assert (Hp0 : p = m0) by (apply mzero_eq; auto).
+  - assert (Hp0 : p = m0) by (apply mzero_eq; auto).
     assert (Hnot : forall fd, reg s' fd <> Some i).
-    { intros fd Hc. pose proof (Hsub _ _ Hc) as Hc0. destruct (k_reg0 _ _ Hc0) as [_ [Hf _]]. subst fd.
-      rewrite Hreg, Hc0, Z.eqb_refl, Nat.eqb_refl in Hc. discriminate. }
+    { intros fd Hc. pose proof (Hsub _ _ Hc) as Hcz. destruct (k_reg0 _ _ Hcz) as [_ [Hf _]]. subst fd.
+      rewrite Hreg, Hcz, Z.eqb_refl, Nat.eqb_refl in Hc. discriminate. }
     assert (Hkeep : forall fd j, j <> i -> reg s fd = Some j -> reg s' fd = Some j).
     { intros fd j Hn Hc. rewrite Hreg. destruct (_ && _ && _) eqn:Hb; auto. exfalso.
       apply andb_prop in Hb. destruct Hb as [Hb Hb2]. apply andb_prop in Hb. destruct Hb as [_ Hb].
       apply Z.eqb_eq in Hb. subst fd. rewrite Hc in Hb2. apply Nat.eqb_eq in Hb2. congruence. }
-    constructor; try congruence.
+    constructor.
+    + congruence.
+    + congruence.
     + intro j. destruct (Nat.eq_dec j i) as [->|]; [|rewrite Hoth; auto]. rewrite Hself. cbn. rewrite Hp0. reflexivity.
     + intros fd j Hc. assert (j <> i) by (intros ->; eapply Hnot; eauto). rewrite Hlv, Hoth by auto. apply k_reg0. auto.
     + intros fd j Hc. assert (j <> i) by (intros ->; eapply Hnot; eauto). apply Hsub in Hc.
@@ -153,14 +201,12 @@ Proof.
       rewrite Sf, Se. eapply k_ev0; eauto.
     + intros j Hc. destruct (Nat.eq_dec j i) as [->|Hn].
       * rewrite Hself. cbn. rewrite Hp0. auto.
-      * rewrite Hoth by auto. apply k_unreg0. rewrite Hfd in Hc. intro Hc0. apply Hc. apply Hkeep; auto.
-    + intros a b Ha Hb. rewrite !Hlv in *. rewrite !Hfd. auto.
-    + intros j Hj. rewrite Hlv in Hj. rewrite Sf, Hfd. auto.
-    + intros fd o m Hm. rewrite Se in Hm. rewrite Sf. destruct (k_ep0 _ _ _ Hm) as [X [j [Y Z]]]. split; auto.
-      exists j. rewrite Hlv, Hfd. auto.
+      * rewrite Hoth by auto. apply k_unreg0. rewrite Hfd in Hc. intro Hcz. apply Hc. apply Hkeep; auto.
+    + intros a b Ha Hb Hk. rewrite !Hlv in *. rewrite Hrw in Hk. rewrite !Hfd. auto.
+    + intros fd j Hc. rewrite Sf. apply Hsub in Hc. eauto.
+    + intros fd o m Hm. rewrite Se in Hm. rewrite Sf. destruct (k_ep0 _ _ _ Hm) as [X Y]. split; auto.
     + intros fd o Hf. rewrite Sf in Hf. rewrite Sp. auto.
-  - (* some events remain *)
-    assert (Hregs : forall fd, reg s' fd = reg s fd) by (intro fd; rewrite Hreg; reflexivity).
+  - assert (Hregs : forall fd, reg s' fd = reg s fd) by (intro fd; rewrite Hreg; reflexivity).
     assert (Hri : reg s (h_fd (hget s i)) = Some i).
     { destruct (reg_dec s (h_fd (hget s i)) i) as [|Hn]; auto. destruct (k_unreg0 _ Hn) as [Hp _].
       unfold p in Hz. rewrite Hp in Hz. mk_destruct ev. discriminate. }
@@ -168,7 +214,9 @@ Proof.
     { intros j Hj. rewrite Hwq. destruct (mem i (wq s)) eqn:Hm.
       - destruct Hj as [Hj|Hj]; auto. subst j. apply mem_In; auto.
       - apply in_or_app. destruct Hj as [Hj|Hj]; auto. subst j. right. left. auto. }
-    constructor; try congruence.
+    constructor.
+    + congruence.
+    + congruence.
     + intro j. destruct (Nat.eq_dec j i) as [->|]; [|rewrite Hoth; auto]. rewrite Hself. cbn. apply mdiff_errhup. auto.
     + intros fd j Hc. rewrite Hregs in Hc. rewrite Hlv, Hfd. destruct (k_reg0 _ _ Hc) as [X [Y Z]]. split_all; auto.
       destruct (Nat.eq_dec j i) as [->|]; [|rewrite Hoth; auto]. rewrite Hself. cbn. auto.
@@ -183,10 +231,9 @@ Proof.
       destruct (Nat.eq_dec j i) as [->|Hn]; [|rewrite Hoth in Hev; auto]. rewrite Hself in Hev. exact Hev.
     + intros j Hc. rewrite Hregs, Hfd in Hc. destruct (Nat.eq_dec j i) as [->|Hn]; [contradiction|].
       rewrite Hoth by auto. auto.
-    + intros a b Ha Hb. rewrite !Hlv in *. rewrite !Hfd. auto.
-    + intros j Hj. rewrite Hlv in Hj. rewrite Sf, Hfd. auto.
-    + intros fd o m Hm. rewrite Se in Hm. rewrite Sf. destruct (k_ep0 _ _ _ Hm) as [X [j [Y Z]]]. split; auto.
-      exists j. rewrite Hlv, Hfd. auto.
+    + intros a b Ha Hb Hk. rewrite !Hlv in *. rewrite Hrw in Hk. rewrite !Hfd. auto.
+    + intros fd j Hc. rewrite Hregs in Hc. rewrite Sf. eauto.
+    + intros fd o m Hm. rewrite Se in Hm. rewrite Sf. destruct (k_ep0 _ _ _ Hm) as [X Y]. split; auto.
     + intros fd o Hf. rewrite Sf in Hf. rewrite Sp. auto.
 Qed.
 
@@ -195,17 +242,19 @@ Proof. intros H. unfold ep_set. destruct (Z.eqb_spec fd' fd); [contradiction|ref
 Lemma ep_set_same e fd o v : ep_set e fd o v fd o = v.
 Proof. unfold ep_set. rewrite Z.eqb_refl, Nat.eqb_refl. reflexivity. Qed.
 
-(* EPOLL_CTL_DEL of a descriptor number nobody is registered on *)
-Lemma KI_del s fd : KI s -> reg s fd = None ->
+(* EPOLL_CTL_DEL of a descriptor number nobody is registered on; afterwards nothing
+   is left under that number, so its exemption is no longer needed *)
+Lemma KI_del xf s fd : KIx xf s -> reg s fd = None -> xf = None \/ xf = Some fd ->
   KI (fst (epoll_ctl s CDel fd m0)) /\ forall o, ep (fst (epoll_ctl s CDel fd m0)) fd o = None.
 Proof.
-  intros K Hr.
+  intros K Hr Hxf.
   pose proof (epoll_ctl_same s CDel fd m0) as X. cbv zeta in X.
   destruct X as [Sh [Sr [Sw [[_ [_ [_ [_ [Sq [_ [Ss Sa]]]]]]] [Sf Sp]]]]].
   pose proof (epoll_ctl_ep s CDel fd m0) as Se.
   set (s' := fst (epoll_ctl s CDel fd m0)) in *.
   assert (Hg : forall j, hget s' j = hget s j) by (intro j; unfold hget; rewrite Sh; auto).
   assert (Hlv : forall j, livei s' j <-> livei s j) by (intro j; unfold livei; rewrite Sh, Hg; tauto).
+  assert (Hrw : forall j, rawi s' j <-> rawi s j) by (intro j; unfold rawi; rewrite Hg; tauto).
   assert (Hoth : forall fd' o', fd' <> fd -> ep s' fd' o' = ep s fd' o').
   { intros fd' o' Hn. rewrite Se. destruct (fdt s fd) as [o|]; auto. destruct (ep s fd o); auto.
     apply ep_set_other; auto. }
@@ -214,41 +263,48 @@ Proof.
     unfold ep_set. destruct (_ && _); [discriminate|auto]. }
   assert (Hgone : forall o, ep s' fd o = None).
   { intro o. destruct (ep s' fd o) as [m|] eqn:Hm; auto. exfalso. pose proof (Hsub _ _ _ Hm) as Hm0.
-    destruct (k_ep s K _ _ _ Hm0) as [Hf _]. rewrite Se, Hf, Hm0, ep_set_same in Hm. discriminate. }
-  split; auto. destruct K. constructor; try congruence.
+    destruct (k_ep _ s K _ _ _ Hm0) as [Hf _]. rewrite Se, Hf, Hm0, ep_set_same in Hm. discriminate. }
+  split; auto. destruct K. constructor.
+  - congruence.
+  - congruence.
+  - intro j. rewrite Hg. auto.
   - intros fd' j Hc. rewrite Sr in Hc. rewrite Hlv, Hg. auto.
   - intros fd' j Hc. rewrite Sr in Hc. assert (fd' <> fd) by congruence.
     destruct (k_sync0 _ _ Hc) as [|[E [o [F G]]]]; [left; congruence|]. right. unfold synced.
     rewrite Hg, Sf. split; auto. exists o. rewrite Hoth; auto.
+  - congruence.
   - intros j Hin. rewrite Sw in Hin. rewrite Sr, Hg. auto.
   - intros fd' j Hc Hev. rewrite Sr in Hc. rewrite Hg in Hev. assert (fd' <> fd) by congruence.
     destruct (k_ev0 _ _ Hc Hev) as [o [F G]]. exists o. rewrite Sf, Hoth; auto.
   - intros j Hc. rewrite Sr, Hg in Hc. rewrite Hg. auto.
-  - intros a b Ha Hb. rewrite !Hlv in *. rewrite !Hg. auto.
-  - intros j Hj. rewrite Hlv in Hj. rewrite Sf, Hg. auto.
-  - intros fd' o m Hm. apply Hsub in Hm. rewrite Sf. destruct (k_ep0 _ _ _ Hm) as [X [j [Y Z]]]. split; auto.
-    exists j. rewrite Hlv, Hg. auto.
+  - intros a b Ha Hb Hk. rewrite !Hlv in *. rewrite Hrw in Hk. rewrite !Hg. auto.
+  - intros fd' j Hc. rewrite Sr in Hc. rewrite Sf. eauto.
+  - intros fd' o m Hm. assert (fd' <> fd) by (intros ->; rewrite Hgone in Hm; discriminate).
+    apply Hsub in Hm. rewrite Sf. destruct (k_ep0 _ _ _ Hm) as [X Y]. split; auto.
+    unfold just in *. rewrite Sr. destruct Y as [Y|[[j [Y1 [Y2 Y3]]]|Y]]; auto.
+    + right. left. exists j. rewrite Hlv, Hrw, Hg. auto.
+    + exfalso. destruct Hxf; congruence.
   - intros fd' o Hf. rewrite Sf in Hf. rewrite Sp. auto.
 Qed.
 
-Lemma KI_set_batch s b : KI s -> KI (set_batch s b).
+Lemma KI_set_batch xf s b : KIx xf s -> KIx xf (set_batch s b).
 Proof. apply KI_same; reflexivity. Qed.
 
-Lemma KI_invalidate s fd : KI s -> reg s fd = None ->
+Lemma KI_invalidate xf s fd : KIx xf s -> reg s fd = None -> xf = None \/ xf = Some fd ->
   KI (invalidate s fd) /\ forall o, ep (invalidate s fd) fd o = None.
-Proof. intros K Hr. unfold invalidate. apply KI_del; auto. apply KI_set_batch; auto. Qed.
+Proof. intros K Hr Hx. unfold invalidate. apply (KI_del xf); auto. apply KI_set_batch; auto. Qed.
 
-Lemma KI_hupd_kview s i f : (forall h, kview (f h) = kview h) -> KI s -> KI (hupd s i f).
+Lemma KI_hupd_kview xf s i f : (forall h, kview (f h) = kview h) -> KIx xf s -> KIx xf (hupd s i f).
 Proof.
   intros Hf. apply KI_ext; try reflexivity.
   - apply hupd_length.
   - intro j. rewrite hget_hupd. destruct (_ && _); auto.
 Qed.
 
-(* uv_close has returned: the handle is out of the registry and nothing is
-   registered in the kernel under its descriptor number *)
+(* uv_close / uv__io_close has returned: the handle is out of the registry; for a
+   stream-like watcher nothing is registered in the kernel under its number *)
 Lemma KI_close_flag s i : KI s -> (forall fd, reg s fd <> Some i) ->
-  (forall o, ep s (h_fd (hget s i)) o = None) ->
+  (rawi s i -> forall o, ep s (h_fd (hget s i)) o = None) ->
   KI (hupd s i (fun h => h_set_closed h true)).
 Proof.
   intros K Hu He. set (s' := hupd s i (fun h => h_set_closed h true)).
@@ -259,6 +315,9 @@ Proof.
   { intro j. unfold s'. rewrite hget_hupd. destruct (_ && _); reflexivity. }
   assert (Hev : forall j, h_ev (hget s' j) = h_ev (hget s j)).
   { intro j. unfold s'. rewrite hget_hupd. destruct (_ && _); reflexivity. }
+  assert (Hkd : forall j, h_kind (hget s' j) = h_kind (hget s j)).
+  { intro j. unfold s'. rewrite hget_hupd. destruct (_ && _); reflexivity. }
+  assert (Hrw : forall j, rawi s' j <-> rawi s j) by (intro j; unfold rawi; rewrite Hkd; tauto).
   assert (Hlv : forall j, livei s' j -> livei s j).
   { intros j [A B]. split; [lia|]. unfold s' in B. rewrite hget_hupd in B. destruct (_ && _); auto. discriminate. }
   assert (Hlv2 : forall j, j <> i -> livei s j -> livei s' j).
@@ -274,17 +333,20 @@ Proof.
   - intros fd j Hc Hm. rewrite Hev in Hm. apply (k_ev0 fd j); auto.
   - intros j Hc. change (reg s' (h_fd (hget s' j))) with (reg s (h_fd (hget s' j))) in Hc. rewrite Hfd in Hc.
     rewrite Hpe, Hev. auto.
-  - intros a b Ha Hb. rewrite !Hfd. apply Hlv in Ha. apply Hlv in Hb. auto.
-  - intros j Hj. apply Hlv in Hj. rewrite Hfd. apply k_fdopen0; auto.
-  - intros fd o m Hm. change (ep s' fd o) with (ep s fd o) in Hm. destruct (k_ep0 _ _ _ Hm) as [X [j [Y Z]]].
-    split; auto. exists j. rewrite Hfd. split; auto. apply Hlv2; auto. intros ->. rewrite Z in He. rewrite He in Hm. discriminate.
+  - intros a b Ha Hb Hk. rewrite Hrw in Hk. rewrite !Hfd. apply Hlv in Ha. apply Hlv in Hb. auto.
+  - intros fd o m Hm. change (ep s' fd o) with (ep s fd o) in Hm. destruct (k_ep0 _ _ _ Hm) as [X Y].
+    split; auto. unfold just in *. change (reg s' fd) with (reg s fd).
+    destruct Y as [Y|[[j [Y1 [Y2 Y3]]]|Y]]; auto. right. left. exists j. rewrite Hrw, Hfd. split_all; auto.
+    apply Hlv2; auto. intros ->. rewrite <- Y3, He in Hm; auto. discriminate.
 Qed.
 
-(* uv__io_start on a live handle *)
+(* uv__io_start on a live handle whose descriptor is open and on whose number no other
+   watcher is registered *)
 Lemma KI_io_start s i ev : KI s -> livei s i -> mzero ev = false -> mand ev ERRHUP = m0 ->
+  fdt s (h_fd (hget s i)) <> None -> (forall j, reg s (h_fd (hget s i)) = Some j -> j = i) ->
   KI (io_start s i ev).
 Proof.
-  intros K Hli Hz He. destruct Hli as [Hl Hc0].
+  intros K Hli Hz He Hopen Honly. destruct Hli as [Hl Hc0].
   destruct (io_start_same s i ev) as [[_ [_ [_ [_ [Sq [_ [Ss Sa]]]]]]] [Sf [Se Sp]]].
   assert (Hself := io_start_self s i ev Hl).
   assert (Hreg := fun fd => io_start_reg s i ev fd Hl). cbv zeta in Hreg.
@@ -297,33 +359,40 @@ Proof.
   { intro j. destruct (Nat.eq_dec j i) as [->|]; [|rewrite Hoth; auto]. rewrite Hself. reflexivity. }
   assert (Hcl : forall j, h_closed (hget s' j) = h_closed (hget s j)).
   { intro j. destruct (Nat.eq_dec j i) as [->|]; [|rewrite Hoth; auto]. rewrite Hself. reflexivity. }
+  assert (Hkd : forall j, h_kind (hget s' j) = h_kind (hget s j)).
+  { intro j. destruct (Nat.eq_dec j i) as [->|]; [|rewrite Hoth; auto]. rewrite Hself. reflexivity. }
   assert (Hevs : forall j, h_ev (hget s' j) = h_ev (hget s j)).
   { intro j. destruct (Nat.eq_dec j i) as [->|]; [|rewrite Hoth; auto]. rewrite Hself. reflexivity. }
   assert (Hlv : forall j, livei s' j <-> livei s j) by (intro j; apply livei_same; auto).
+  assert (Hrw : forall j, rawi s' j <-> rawi s j) by (intro j; unfold rawi; rewrite Hkd; tauto).
   assert (Hpi : h_pev (hget s' i) = P) by (rewrite Hself; reflexivity).
   destruct K.
-  assert (Honly : forall j, reg s (h_fd (hget s i)) = Some j -> j = i).
-  { intros j Hc. destruct (k_reg0 _ _ Hc) as [X [Y _]]. apply k_uniq0; auto. split; auto. }
+  assert (Hjust : forall fd, (forall fd' j, reg s fd' = Some j -> reg s' fd' = Some j) -> just None s fd -> just None s' fd).
+  { intros fd Hsup [Y|[[j [Y1 [Y2 Y3]]]|Y]]; [|right; left; exists j; rewrite Hlv, Hrw, Hfd; auto|discriminate].
+    left. destruct (reg s fd) as [j|] eqn:Hr; [|congruence]. rewrite (Hsup _ _ Hr). discriminate. }
   destruct (meqb (h_ev (hget s i)) P) eqn:Hm.
   - apply meqb_eq in Hm.
     assert (Hri : reg s (h_fd (hget s i)) = Some i).
     { destruct (reg_dec s (h_fd (hget s i)) i) as [|Hn]; auto. destruct (k_unreg0 _ Hn) as [_ Hp].
       rewrite Hp in Hm. rewrite <- Hm in HP. discriminate. }
     assert (Hregs : forall fd, reg s' fd = reg s fd) by (intro fd; rewrite Hreg; reflexivity).
-    constructor; try congruence.
+    constructor.
+    + congruence.
+    + congruence.
     + intro j. destruct (Nat.eq_dec j i) as [->|]; [|rewrite Hoth; auto]. rewrite Hpi. apply mor_errhup; auto.
     + intros fd j Hc. rewrite Hregs in Hc. rewrite Hlv, Hfd. destruct (k_reg0 _ _ Hc) as [X [Y Z]]. split_all; auto.
       destruct (Nat.eq_dec j i) as [->|]; [|rewrite Hoth; auto]. rewrite Hpi; auto.
     + intros fd j Hc. rewrite Hregs in Hc. rewrite Hwq. destruct (k_sync0 _ _ Hc) as [|[E [o [F G]]]]; auto.
       right. unfold synced. rewrite Hevs, Sf, Se. destruct (Nat.eq_dec j i) as [->|]; [|rewrite Hoth; eauto].
       rewrite Hpi. split; auto. exists o. split; auto. rewrite G. congruence.
+    + congruence.
     + intros j Hin. rewrite Hwq in Hin. rewrite Hregs, Hfd. auto.
     + intros fd j Hc Hev. rewrite Hregs in Hc. rewrite Hevs in Hev. rewrite Sf, Se. eauto.
     + intros j Hc. rewrite Hregs, Hfd in Hc. destruct (Nat.eq_dec j i) as [->|]; [contradiction|]. rewrite Hoth; auto.
-    + intros a b Ha Hb. rewrite !Hlv in *. rewrite !Hfd. auto.
-    + intros j Hj. rewrite Hlv in Hj. rewrite Sf, Hfd. auto.
-    + intros fd o m Hx. rewrite Se in Hx. rewrite Sf. destruct (k_ep0 _ _ _ Hx) as [X [j [Y Z]]]. split; auto.
-      exists j. rewrite Hlv, Hfd. auto.
+    + intros a b Ha Hb Hk. rewrite !Hlv in *. rewrite Hrw in Hk. rewrite !Hfd. auto.
+    + intros fd j Hc. rewrite Hregs in Hc. rewrite Sf. eauto.
+    + intros fd o m Hx. rewrite Se in Hx. rewrite Sf. destruct (k_ep0 _ _ _ Hx) as [X Y]. split; auto.
+      apply Hjust; auto. intros fd' j Hc. rewrite Hregs. auto.
     + intros fd o Hf. rewrite Sf in Hf. rewrite Sp. auto.
   - assert (Hri : reg s' (h_fd (hget s i)) = Some i).
     { rewrite Hreg. destruct (reg s (h_fd (hget s i))) as [j|] eqn:Hr.
@@ -339,7 +408,9 @@ Proof.
     { intros j Hj. rewrite Hwq. destruct (mem i (wq s)) eqn:Hmm.
       - destruct Hj as [Hj|Hj]; auto. subst j. apply mem_In; auto.
       - apply in_or_app. destruct Hj as [Hj|Hj]; auto. subst j. right. left. auto. }
-    constructor; try congruence.
+    constructor.
+    + congruence.
+    + congruence.
     + intro j. destruct (Nat.eq_dec j i) as [->|]; [|rewrite Hoth; auto]. rewrite Hpi. apply mor_errhup; auto.
     + intros fd j Hc. rewrite Hlv, Hfd. destruct (Nat.eq_dec j i) as [->|Hn].
       * rewrite Hpi. destruct (Hsub _ _ Hc) as [Hc'|[_ ->]]; [destruct (k_reg0 _ _ Hc') as [X [Y _]]|]; split_all; auto; split; auto.
@@ -358,17 +429,17 @@ Proof.
       destruct (k_unreg0 _ Hn) as [_ Hp]. rewrite Hp in Hev. discriminate.
     + intros j Hc. rewrite Hfd in Hc. destruct (Nat.eq_dec j i) as [->|Hn]; [contradiction|].
       rewrite Hoth by auto. apply k_unreg0. intro Hx. apply Hc. apply Hsup; auto.
-    + intros a b Ha Hb. rewrite !Hlv in *. rewrite !Hfd. auto.
-    + intros j Hj. rewrite Hlv in Hj. rewrite Sf, Hfd. auto.
-    + intros fd o m Hx. rewrite Se in Hx. rewrite Sf. destruct (k_ep0 _ _ _ Hx) as [X [j [Y Z]]]. split; auto.
-      exists j. rewrite Hlv, Hfd. auto.
+    + intros a b Ha Hb Hk. rewrite !Hlv in *. rewrite Hrw in Hk. rewrite !Hfd. auto.
+    + intros fd j Hc. rewrite Sf. destruct (Hsub _ _ Hc) as [Hc'|[_ ->]]; eauto.
+    + intros fd o m Hx. rewrite Se in Hx. rewrite Sf. destruct (k_ep0 _ _ _ Hx) as [X Y]. split; auto.
     + intros fd o Hf. rewrite Sf in Hf. rewrite Sp. auto.
 Qed.
 
 (* a new handle (or, for a failed uv_poll_init, an unusable one) *)
 Lemma KI_append s x : KI s -> h_pev x = m0 -> h_ev x = m0 ->
   (h_closed x = true \/
-   (fdt s (h_fd x) <> None /\ forall j, livei s j -> h_fd (hget s j) <> h_fd x)) ->
+   ((forall j, livei s j -> rawi s j -> h_fd (hget s j) <> h_fd x) /\
+    (h_kind x = KRaw -> forall j, livei s j -> h_fd (hget s j) <> h_fd x))) ->
   KI (set_hs s (hs s ++ [x])).
 Proof.
   intros K Hp He Hx. set (s' := set_hs s (hs s ++ [x])).
@@ -403,31 +474,30 @@ Proof.
     + rewrite Hold in * by auto. auto.
     + rewrite Hnew. auto.
     + rewrite Hbig by auto. auto.
-  - intros a b Ha Hb Hf. destruct (Hlv _ Ha) as [Ha'|[Ea Hca]]; destruct (Hlv _ Hb) as [Hb'|[Eb Hcb]].
-    + rewrite (Hold a) in Hf by apply Ha'. rewrite (Hold b) in Hf by apply Hb'. auto.
-    + subst b. rewrite (Hold a) in Hf by apply Ha'. rewrite Hnew in Hf. destruct Hx as [Hx|[_ Hx]]; [congruence|].
+  - intros a b Ha Hb Hk Hf. unfold rawi in Hk.
+    destruct (Hlv _ Ha) as [Ha'|[Ea Hca]]; destruct (Hlv _ Hb) as [Hb'|[Eb Hcb]].
+    + rewrite (Hold a) in Hf, Hk by apply Ha'. rewrite (Hold b) in Hf by apply Hb'. auto.
+    + subst b. rewrite (Hold a) in Hf, Hk by apply Ha'. rewrite Hnew in Hf. destruct Hx as [Hx|[Hx _]]; [congruence|].
       exfalso. eapply Hx; eauto.
-    + subst a. rewrite (Hold b) in Hf by apply Hb'. rewrite Hnew in Hf. destruct Hx as [Hx|[_ Hx]]; [congruence|].
-      exfalso. eapply Hx; eauto.
+    + subst a. rewrite (Hold b) in Hf by apply Hb'. rewrite Hnew in Hf, Hk. destruct Hx as [Hx|[_ Hx]]; [congruence|].
+      exfalso. eapply (Hx Hk); eauto.
     + congruence.
-  - intros j Hj. change (fdt s') with (fdt s). destruct (Hlv _ Hj) as [Hj'|[-> Hc]].
-    + rewrite Hold by apply Hj'. auto.
-    + rewrite Hnew. destruct Hx as [Hx|[Hx _]]; [congruence|auto].
-  - intros fd o m Hm. change (ep s' fd o) with (ep s fd o) in Hm. destruct (k_ep0 _ _ _ Hm) as [X [j [Y Z]]].
-    split; auto. exists j. split; auto. rewrite Hold by apply Y. auto.
+  - intros fd o m Hm. change (ep s' fd o) with (ep s fd o) in Hm. destruct (k_ep0 _ _ _ Hm) as [X Y].
+    split; auto. unfold just in *. change (reg s' fd) with (reg s fd).
+    destruct Y as [Y|[[j [Y1 [Y2 Y3]]]|Y]]; auto. right. left. exists j. unfold rawi in *.
+    rewrite Hold by apply Y1. auto.
 Qed.
 
 (* open / dup / close in the kernel *)
 Lemma KI_k_open s fd : KI s -> fdt s fd = None -> KI (k_open s fd).
 Proof.
   intros K Hf. unfold k_open. set (o := next_ofd s).
-  assert (Hne : forall fd' o', fdt s fd' = Some o' -> fd' <> fd) by (intros fd' o' H ->; congruence).
   assert (Hft : forall fd' o', fdt s fd' = Some o' -> fn_set (fdt s) fd (Some o) fd' = Some o').
   { intros fd' o' H. unfold fn_set. destruct (Z.eqb_spec fd' fd); auto. subst. congruence. }
   destruct K. constructor; auto.
   - intros fd' j Hc. destruct (k_sync0 _ _ Hc) as [|[E [o' [F G]]]]; auto. right. split; auto. exists o'. cbn. auto.
   - intros fd' j Hc Hev. destruct (k_ev0 _ _ Hc Hev) as [o' [F G]]. exists o'. cbn. auto.
-  - intros j Hj. cbn. unfold fn_set. destruct (_ =? _); [discriminate|]. apply k_fdopen0; auto.
+  - intros fd' j Hc. cbn. unfold fn_set. destruct (_ =? _); [discriminate|]. eapply k_regopen0; eauto.
   - intros fd' o' m Hm. cbn in Hm. destruct (k_ep0 _ _ _ Hm) as [X Y]. split; auto. cbn. auto.
   - intros fd' o' H. cbn in *. unfold fn_set in H. destruct (Z.eqb_spec fd' fd).
     + inversion H; subst. left; auto.
@@ -442,16 +512,18 @@ Proof.
   destruct K. constructor; auto.
   - intros fd' j Hc. destruct (k_sync0 _ _ Hc) as [|[E [o' [F G]]]]; auto. right. split; auto. exists o'. cbn. auto.
   - intros fd' j Hc Hev. destruct (k_ev0 _ _ Hc Hev) as [o' [F G]]. exists o'. cbn. auto.
-  - intros j Hj. cbn. unfold fn_set. destruct (_ =? _); [discriminate|]. apply k_fdopen0; auto.
+  - intros fd' j Hc. cbn. unfold fn_set. destruct (_ =? _); [discriminate|]. eapply k_regopen0; eauto.
   - intros fd' o' m Hm. cbn in Hm. destruct (k_ep0 _ _ _ Hm) as [X Y]. split; auto. cbn. auto.
   - intros fd' o' H. cbn in *. unfold fn_set in H. destruct (Z.eqb_spec fd' fd).
     + inversion H; subst. left; auto.
     + right. auto.
 Qed.
 
-Lemma KI_k_close s fd : KI s -> (forall j, livei s j -> h_fd (hget s j) <> fd) -> KI (k_close s fd).
+(* close(fd) when no watcher is registered under fd and no stream-like watcher owns it *)
+Lemma KI_k_close s fd : KI s -> reg s fd = None ->
+  (forall j, livei s j -> rawi s j -> h_fd (hget s j) <> fd) -> KI (k_close s fd).
 Proof.
-  intros K Hno. unfold k_close. destruct (fdt s fd) as [o|] eqn:Hf; auto.
+  intros K Hrn Hno. unfold k_close. destruct (fdt s fd) as [o|] eqn:Hf; auto.
   set (t := fn_set (fdt s) fd None).
   assert (Ht : forall fd', fd' <> fd -> t fd' = fdt s fd').
   { intros fd' Hn. unfold t, fn_set. destruct (Z.eqb_spec fd' fd); [contradiction|auto]. }
@@ -460,13 +532,13 @@ Proof.
   { intros Hs fd' o' Hn Hf' ->. unfold still in Hs.
     assert (existsb (fun p => Nat.eqb (snd p) o && match t (fst p) with Some o' => Nat.eqb o' o | None => false end)
                     (pairs s) = true) as Hx.
-    { apply existsb_exists. exists (fd', o). split; [apply (k_pairs s K); auto|]. cbn.
+    { apply existsb_exists. exists (fd', o). split; [apply (k_pairs _ s K); auto|]. cbn.
       rewrite Ht, Hf', Nat.eqb_refl by auto. reflexivity. }
     congruence. }
-  assert (Hreg : forall fd' j, reg s fd' = Some j -> fd' <> fd).
-  { intros fd' j Hc ->. destruct (k_reg s K _ _ Hc) as [X [Y _]]. eapply Hno; eauto. }
+  assert (Hreg : forall fd' j, reg s fd' = Some j -> fd' <> fd) by (intros fd' j Hc ->; congruence).
   assert (Hepfd : forall fd' o' m, ep s fd' o' = Some m -> fd' <> fd).
-  { intros fd' o' m Hm ->. destruct (k_ep s K _ _ _ Hm) as [_ [j [Y Z]]]. eapply Hno; eauto. }
+  { intros fd' o' m Hm ->. destruct (k_ep _ s K _ _ _ Hm) as [_ [Y|[[j [Y1 [Y2 Y3]]]|Y]]]; [congruence| |discriminate].
+    eapply Hno; eauto. }
   set (ep' := if still then ep s else fun x y => if Nat.eqb y o then None else ep s x y).
   assert (Hep1 : forall fd' o' m, ep' fd' o' = Some m -> ep s fd' o' = Some m).
   { intros fd' o' m. unfold ep'. destruct still; auto. destruct (Nat.eqb o' o); [discriminate|auto]. }
@@ -480,8 +552,7 @@ Proof.
       rewrite Ht by eauto. split; auto. rewrite Hep2; eauto.
     - intros fd' j Hc Hev. change (reg (set_ep (set_fdt s t) ep') fd') with (reg s fd') in Hc.
       destruct (k_ev0 _ _ Hc Hev) as [o' [F G]]. exists o'. cbn. rewrite Ht by eauto. split; auto. rewrite Hep2; eauto.
-    - intros j Hj. change (fdt s (h_fd (hget s j)) <> None -> t (h_fd (hget s j)) <> None) with (fdt s (h_fd (hget s j)) <> None -> t (h_fd (hget s j)) <> None).
-      cbn [fdt set_ep set_fdt]. change (hget (set_ep (set_fdt s t) ep') j) with (hget s j). rewrite Ht by (apply Hno; exact Hj). apply k_fdopen0; exact Hj.
+    - intros fd' j Hc. cbn [reg fdt set_ep set_fdt] in *. rewrite Ht by eauto. eauto.
     - intros fd' o' m Hm. cbn in Hm. apply Hep1 in Hm. destruct (k_ep0 _ _ _ Hm) as [X Y]. split; auto.
       cbn. rewrite Ht; eauto.
     - intros fd' o' H. cbn in *. unfold t, fn_set in H. destruct (fd' =? fd); [discriminate|auto]. }
@@ -502,13 +573,33 @@ Proof.
   rewrite Hc in X. discriminate.
 Qed.
 
-(* uv__io_check_fd on a descriptor number no live handle uses *)
-Lemma KI_check_fd s fd : KI s -> (forall j, livei s j -> h_fd (hget s j) <> fd) ->
+Lemma no_live_raw_on s fd : any_on s fd (fun h => live h && is_raw h) = false ->
+  forall j, livei s j -> rawi s j -> h_fd (hget s j) <> fd.
+Proof.
+  intros H j [Hj Hc] Hr Hf. pose proof (any_on_false s fd _ H j Hj Hf) as X. cbn in X. unfold live, is_raw in X.
+  unfold rawi in Hr. rewrite Hc, Hr in X. discriminate.
+Qed.
+
+Lemma no_busy_on s fd : KI s -> any_on s fd busy = false ->
+  reg s fd = None /\ forall j, livei s j -> rawi s j -> h_fd (hget s j) <> fd.
+Proof.
+  intros K H. split.
+  - destruct (reg s fd) as [i|] eqn:Hr; auto. exfalso. destruct (k_reg _ s K _ _ Hr) as [[A B] [C D]].
+    pose proof (any_on_false s fd busy H i A C) as X. unfold busy in X. rewrite B, D in X. cbn in X.
+    rewrite Bool.orb_true_r in X. discriminate.
+  - intros j [Hj Hc] Hr Hf. pose proof (any_on_false s fd busy H j Hj Hf) as X. unfold busy, is_raw in X.
+    unfold rawi in Hr. rewrite Hc, Hr in X. cbn in X. rewrite Bool.orb_true_r in X. discriminate.
+Qed.
+
+(* uv__io_check_fd on a number without a registered watcher or a stream-like owner *)
+Lemma KI_check_fd s fd : KI s -> reg s fd = None ->
+  (forall j, livei s j -> rawi s j -> h_fd (hget s j) <> fd) ->
   KI (fst (io_check_fd s fd)) /\ (snd (io_check_fd s fd) = 0 -> fdt s fd <> None).
 Proof.
-  intros K Hno.
+  intros K Hrn Hno.
   assert (Hnone : forall o, ep s fd o = None).
-  { intro o. destruct (ep s fd o) eqn:Hm; auto. exfalso. destruct (k_ep s K _ _ _ Hm) as [_ [j [Y Z]]]. eapply Hno; eauto. }
+  { intro o. destruct (ep s fd o) eqn:Hm; auto. exfalso.
+    destruct (k_ep _ s K _ _ _ Hm) as [_ [Y|[[j [Y1 [Y2 Y3]]]|Y]]]; [congruence| |discriminate]. eapply Hno; eauto. }
   unfold io_check_fd, epoll_ctl. destruct (fdt s fd) as [o|] eqn:Hf.
   - rewrite Hnone. cbn. rewrite Hf. cbn. rewrite ep_set_same. cbn. split; [|discriminate].
     eapply KI_ext; [..|exact K]; try reflexivity.
@@ -517,82 +608,104 @@ Proof.
   - cbn. split; auto. discriminate.
 Qed.
 
-Lemma KI_poll_stop s i : KI s -> livei s i ->
-  let s' := poll_stop s i in
-  KI s' /\ (forall fd, reg s' fd <> Some i) /\ (forall o, ep s' (h_fd (hget s i)) o = None) /\
+(* the stop sequence of uv__poll_stop and of the UV_EBADF branch of uv__poll_io:
+   uv__io_stop(all); uv__handle_stop; invalidate unless another watcher is registered *)
+Definition stop_seq (s : state) (i : nat) (fd : Z) : state :=
+  invalidate_unless_watched
+    (hupd (io_stop s i ALLEV) i (fun h => h_set_ghost (h_set_active h false) (g_req h) None)) fd.
+
+Lemma KI_stop_seq s i : KI s -> livei s i -> h_kind (hget s i) = KPoll ->
+  let s' := stop_seq s i (h_fd (hget s i)) in
+  KI s' /\ (forall fd, reg s' fd <> Some i) /\
+  (forall fd j, reg s' fd = Some j -> reg s fd = Some j) /\
   livei s' i /\ h_fd (hget s' i) = h_fd (hget s i) /\ length (hs s') = length (hs s) /\
-  h_kind (hget s' i) = h_kind (hget s i).
+  h_kind (hget s' i) = h_kind (hget s i) /\ fdt s' = fdt s.
 Proof.
-  intros K [Hl Hc]. cbv zeta. unfold poll_stop.
-  pose proof (KI_io_stop s i ALLEV K Hl) as K1.
+  intros K Hli Hk. destruct Hli as [Hl Hc]. cbv zeta. unfold stop_seq.
+  pose proof (KI_io_stop s i ALLEV K (conj Hl Hc)) as K1. unfold xraw in K1. rewrite Hk in K1.
   assert (Hself : hget (io_stop s i ALLEV) i = h_set_ev (h_set_pev (hget s i) m0) m0).
-  { rewrite io_stop_self by auto. cbv zeta. rewrite mdiff_all by apply (k_pev s K). reflexivity. }
+  { rewrite io_stop_self by auto. cbv zeta. rewrite mdiff_all by apply (k_pev _ s K). reflexivity. }
   assert (Hl1 : length (hs (io_stop s i ALLEV)) = length (hs s)) by apply io_stop_length.
+  destruct (io_stop_same s i ALLEV) as [_ [Sf1 _]].
   set (s1 := io_stop s i ALLEV) in *.
-  assert (Hli1 : livei s1 i) by (split; [lia|rewrite Hself; auto]).
   assert (Hun1 : forall fd, reg s1 fd <> Some i).
-  { intros fd Hr. destruct (k_reg s1 K1 _ _ Hr) as [_ [_ Hz]]. rewrite Hself in Hz. discriminate. }
+  { intros fd Hr. destruct (k_reg _ s1 K1 _ _ Hr) as [_ [_ Hz]]. rewrite Hself in Hz. discriminate. }
+  assert (Hsub1 : forall fd j, reg s1 fd = Some j -> reg s fd = Some j).
+  { intros fd j Hr. unfold s1 in Hr. rewrite io_stop_reg in Hr by auto. cbv zeta in Hr.
+    destruct (_ && _ && _); [discriminate|auto]. }
   set (s2 := hupd s1 i (fun h => h_set_ghost (h_set_active h false) (g_req h) None)).
-  assert (K2 : KI s2) by (apply KI_hupd_kview; auto; intros; reflexivity).
+  assert (K2 : KIx (Some (h_fd (hget s i))) s2) by (apply KI_hupd_kview; auto; intros; reflexivity).
   assert (Hs2 : hget s2 i = h_set_ghost (h_set_active (hget s1 i) false) (g_req (hget s1 i)) None).
   { unfold s2. rewrite hget_hupd_same by lia. reflexivity. }
-  assert (Hfd2 : h_fd (hget s2 i) = h_fd (hget s i)) by (rewrite Hs2, Hself; reflexivity).
-  assert (Hli2 : livei s2 i).
-  { split; [unfold s2; rewrite hupd_length; lia|]. rewrite Hs2, Hself. auto. }
-  assert (Hnone : reg s2 (h_fd (hget s2 i)) = None).
-  { destruct (reg s2 (h_fd (hget s2 i))) as [j|] eqn:Hr; auto. exfalso.
-    destruct (k_reg s2 K2 _ _ Hr) as [X [Y _]]. assert (j = i) by (apply (k_uniq s2 K2); auto). subst j.
-    unfold s2 in Hr. cbn [reg hupd set_hs] in Hr. eapply Hun1; eauto. }
-  destruct (KI_invalidate s2 _ K2 Hnone) as [K3 Hgone].
-  destruct (invalidate_same s2 (h_fd (hget s2 i))) as [Sh [Sr _]]. cbv zeta in *.
-  assert (Hg : forall j, hget (invalidate s2 (h_fd (hget s2 i))) j = hget s2 j) by (intro j; unfold hget at 1; rewrite Sh; reflexivity).
+  destruct (iuw_same s2 (h_fd (hget s i))) as [Sh [Sr [_ [_ [_ [_ [_ [_ [_ [_ [Sf _]]]]]]]]]]]. cbv zeta in *.
+  assert (Hg : forall j, hget (invalidate_unless_watched s2 (h_fd (hget s i))) j = hget s2 j)
+    by (intro j; unfold hget at 1; rewrite Sh; reflexivity).
+  assert (K3 : KI (invalidate_unless_watched s2 (h_fd (hget s i)))).
+  { destruct (iuw_cases s2 (h_fd (hget s i))) as [[Hr ->]|[Hr ->]].
+    - eapply KIx_of_reg; eauto.
+    - eapply KI_invalidate; eauto. }
   split_all; auto.
   - intros fd. rewrite Sr. unfold s2. cbn [reg hupd set_hs]. apply Hun1.
-  - rewrite <- Hfd2. auto.
-  - split; [rewrite Sh; apply Hli2|]. rewrite Hg. apply Hli2.
-  - rewrite Hg. auto.
+  - intros fd j. rewrite Sr. unfold s2. cbn [reg hupd set_hs]. apply Hsub1.
+  - split; [rewrite Sh; unfold s2; rewrite hupd_length; lia|]. rewrite Hg, Hs2, Hself. auto.
+  - rewrite Hg, Hs2, Hself. reflexivity.
   - rewrite Sh. unfold s2. rewrite hupd_length. auto.
   - rewrite Hg, Hs2, Hself. reflexivity.
+  - rewrite Sf. unfold s2. cbn [fdt hupd set_hs]. apply Sf1.
 Qed.
 
-Lemma KI_poll_start s i m : KI s -> livei s i -> mand m ALLEV = m -> KI (fst (poll_start s i m)).
+Lemma poll_stop_seq s i : (i < length (hs s))%nat -> poll_stop s i = stop_seq s i (h_fd (hget s i)).
 Proof.
-  intros K Hli Hm. unfold poll_start.
-  destruct (match reg s (h_fd (hget s i)) with Some j => negb (Nat.eqb i j) | None => false end); auto.
-  destruct (KI_poll_stop s i K Hli) as [K1 [Hun [_ [Hli1 [Hfd [Hlen _]]]]]]. cbv zeta in *.
-  set (s1 := poll_stop s i) in *.
+  intros Hl. unfold poll_stop, stop_seq. f_equal.
+  rewrite hget_hupd_same by (rewrite io_stop_length; auto). cbn.
+  rewrite io_stop_self by auto. cbv zeta. destruct (mzero _); reflexivity.
+Qed.
+
+Lemma KI_poll_start s i m : KI s -> livei s i -> h_kind (hget s i) = KPoll ->
+  fdt s (h_fd (hget s i)) <> None -> mand m ALLEV = m -> KI (fst (poll_start s i m)).
+Proof.
+  intros K Hli Hk Hopen Hm. unfold poll_start.
+  destruct (match reg s (h_fd (hget s i)) with Some j => negb (Nat.eqb i j) | None => false end) eqn:Ho; auto.
+  rewrite poll_stop_seq by apply Hli.
+  destruct (KI_stop_seq s i K Hli Hk) as [K1 [Hun [Hsub [Hli1 [Hfd [Hlen [_ Hf]]]]]]]. cbv zeta in *.
+  set (s1 := stop_seq s i (h_fd (hget s i))) in *.
   destruct (mzero m) eqn:Hz; auto. cbn [fst].
   apply KI_hupd_kview; [intros; reflexivity|]. apply KI_io_start; auto.
   - rewrite Hm. auto.
   - apply mand_allev_errhup.
+  - rewrite Hf, Hfd. auto.
+  - intros j Hr. rewrite Hfd in Hr. apply Hsub in Hr. rewrite Hr in Ho.
+    destruct (Nat.eqb_spec i j); [auto|discriminate].
 Qed.
 
-Lemma KI_io_close s i : KI s -> livei s i ->
+Lemma KI_io_close s i : KI s -> livei s i -> rawi s i ->
   KI (io_close s i) /\ (forall fd, reg (io_close s i) fd <> Some i) /\
-  (forall o, ep (io_close s i) (h_fd (hget (io_close s i) i)) o = None).
+  (forall o, ep (io_close s i) (h_fd (hget (io_close s i) i)) o = None) /\ rawi (io_close s i) i.
 Proof.
-  intros K [Hl Hc]. unfold io_close.
-  pose proof (KI_io_stop s i ALLEV K Hl) as K1.
+  intros K [Hl Hc] Hraw. unfold io_close.
+  pose proof (KI_io_stop s i ALLEV K (conj Hl Hc)) as K1. unfold xraw in K1. unfold rawi in Hraw. rewrite Hraw in K1.
   assert (Hself : hget (io_stop s i ALLEV) i = h_set_ev (h_set_pev (hget s i) m0) m0).
-  { rewrite io_stop_self by auto. cbv zeta. rewrite mdiff_all by apply (k_pev s K). reflexivity. }
+  { rewrite io_stop_self by auto. cbv zeta. rewrite mdiff_all by apply (k_pev _ s K). reflexivity. }
   assert (Hl1 : length (hs (io_stop s i ALLEV)) = length (hs s)) by apply io_stop_length.
   set (s1 := io_stop s i ALLEV) in *.
   assert (Hun1 : forall fd, reg s1 fd <> Some i).
-  { intros fd Hr. destruct (k_reg s1 K1 _ _ Hr) as [_ [_ Hz]]. rewrite Hself in Hz. discriminate. }
+  { intros fd Hr. destruct (k_reg _ s1 K1 _ _ Hr) as [_ [_ Hz]]. rewrite Hself in Hz. discriminate. }
   set (s2 := set_prun (set_pend s1 (remove_id i (pend s1))) (remove_id i (prun s1))).
   assert (K2 : KI s2) by (eapply KI_same; [..|exact K1]; reflexivity).
   change (hget s2 i) with (hget s1 i).
   assert (Hli2 : livei s2 i) by (split; [cbn; lia|change (hget s2 i) with (hget s1 i); rewrite Hself; auto]).
+  assert (Hrw2 : rawi s2 i) by (unfold rawi; change (hget s2 i) with (hget s1 i); rewrite Hself; auto).
   assert (Hnone : reg s2 (h_fd (hget s1 i)) = None).
   { destruct (reg s2 (h_fd (hget s1 i))) as [j|] eqn:Hr; auto. exfalso.
-    destruct (k_reg s2 K2 _ _ Hr) as [X [Y _]]. assert (j = i) by (apply (k_uniq s2 K2); auto). subst j.
+    destruct (k_reg _ s2 K2 _ _ Hr) as [X [Y _]]. assert (i = j) by (apply (k_rawx _ s2 K2); auto). subst j.
     eapply Hun1; eauto. }
-  destruct (KI_invalidate s2 _ K2 Hnone) as [K3 Hgone].
+  destruct (KI_invalidate None s2 _ K2 Hnone (or_introl eq_refl)) as [K3 Hgone].
   destruct (invalidate_same s2 (h_fd (hget s1 i))) as [Sh [Sr _]]. cbv zeta in *.
   assert (Hg : forall j, hget (invalidate s2 (h_fd (hget s1 i))) j = hget s2 j) by (intro j; unfold hget at 1; rewrite Sh; reflexivity).
   split_all; auto.
   - intros fd. rewrite Sr. apply Hun1.
   - intro o. rewrite Hg. apply Hgone.
+  - unfold rawi. rewrite Hg. exact Hrw2.
 Qed.
 
 Definition EK (e : event) : Prop :=
@@ -607,7 +720,7 @@ Qed.
 
 Lemma KI_api fdo s o : KI s -> KI (fst (api fdo s o)) /\ Forall EK (snd (api fdo s o)).
 Proof.
-  intros K. unfold api. rewrite (k_abort s K).
+  intros K. unfold api. rewrite (k_abort _ s K).
   destruct o.
   - (* OOpen *)
     destruct (slots s sl =? -1); [|split; [auto|repeat constructor]].
@@ -624,55 +737,57 @@ Proof.
     destruct (fdt s1 (fdo (nopen s))) eqn:Hf; cbn [fst snd]; (split; [|repeat constructor]); auto.
     eapply KI_same; [..|apply (KI_k_dup s1 (slots s1 src) _ K1 Hf)]; reflexivity.
   - (* OCloseFd *)
-    rewrite (k_strict s K). cbn [andb].
     destruct (slots s sl =? -1); cbn [orb]; [split; [auto|repeat constructor]|].
-    destruct (any_on s (slots s sl) busy); cbn [orb]; [split; [auto|repeat constructor]|].
-    destruct (any_on s (slots s sl) live) eqn:Ha; [split; [auto|repeat constructor]|].
-    cbn [fst snd]. split; [|repeat constructor].
-    eapply KI_same; [..|apply (KI_k_close s (slots s sl) K (no_live_on _ _ Ha))]; reflexivity.
+    destruct (any_on s (slots s sl) busy) eqn:Hb; cbn [orb]; [split; [auto|repeat constructor]|].
+    destruct (strict s && any_on s (slots s sl) live); [split; [auto|repeat constructor]|].
+    cbn [fst snd]. split; [|repeat constructor]. destruct (no_busy_on s _ K Hb) as [B1 B2].
+    eapply KI_same; [..|apply (KI_k_close s (slots s sl) K B1 B2)]; reflexivity.
   - split; [auto|constructor].
   - (* OInit *)
-    rewrite (k_strict s K). cbn [andb].
     destruct (slots s sl =? -1); cbn [orb]; [split; [auto|repeat constructor]|].
-    destruct (any_on s (slots s sl) (fun h => live h && is_raw h)); cbn [orb]; [split; [auto|repeat constructor]|].
-    destruct (any_on s (slots s sl) live) eqn:Ha; [split; [auto|repeat constructor]|].
-    pose proof (no_live_on _ _ Ha) as Hno.
-    unfold poll_init. destruct (fd_exists s (slots s sl)).
+    destruct (any_on s (slots s sl) (fun h => live h && is_raw h)) eqn:Har; cbn [orb]; [split; [auto|repeat constructor]|].
+    destruct (strict s && any_on s (slots s sl) live); [split; [auto|repeat constructor]|].
+    pose proof (no_live_raw_on _ _ Har) as Hno.
+    unfold poll_init, fd_exists. destruct (reg s (slots s sl)) eqn:Hrn.
     + cbn [fst snd]. split; [|repeat constructor]. apply KI_append; auto.
-    + destruct (KI_check_fd s (slots s sl) K Hno) as [K1 Hrc].
+    + destruct (KI_check_fd s (slots s sl) K Hrn Hno) as [K1 Hrc].
       pose proof (io_check_fd_same s (slots s sl)) as X. cbv zeta in X.
       destruct (io_check_fd s (slots s sl)) as [s1 rc]. cbn [fst snd] in *.
       destruct X as [Xh [_ [_ [_ [_ [_ [_ [_ [_ [_ [Xf _]]]]]]]]]]].
       destruct (Z.eqb_spec rc 0); cbn [fst snd]; (split; [|repeat constructor]); apply KI_append; auto.
-      right. cbn. rewrite Xf. split; auto. intros j Hj.
+      right. cbn. split; [|discriminate]. intros j Hj Hr.
       assert (Hg : hget s1 j = hget s j) by (unfold hget; rewrite Xh; auto).
-      rewrite Hg. apply Hno. destruct Hj as [A B]. rewrite Hg in B. rewrite Xh in A. split; auto.
+      rewrite Hg. apply Hno; [destruct Hj as [A B]; rewrite Hg in B; rewrite Xh in A; split; auto|].
+      unfold rawi in *. rewrite Hg in Hr. auto.
   - (* ORawInit *)
     destruct (slots s sl =? -1); cbn [orb]; [split; [auto|repeat constructor]|].
     destruct (fdt s (slots s sl)) eqn:Hf; cbn [orb]; [|split; [auto|repeat constructor]].
     destruct (any_on s (slots s sl) live) eqn:Ha; [split; [auto|repeat constructor]|].
     cbn [fst snd]. split; [|repeat constructor]. unfold raw_init. apply KI_append; auto.
-    right. cbn. split; [congruence|]. apply no_live_on; auto.
+    right. cbn. split; [intros j Hj _|intros _]; apply no_live_on; auto.
   - (* OStart *)
     destruct (valid s h && _) eqn:Hv; [|split; [auto|repeat constructor]].
-    apply andb_prop in Hv. destruct Hv as [Hv _]. apply valid_livei in Hv.
+    apply andb_prop in Hv. destruct Hv as [Hv Hop]. apply valid_livei in Hv.
+    assert (Hopen : fdt s (h_fd (hget s h)) <> None) by (destruct (fdt s (h_fd (hget s h))); [discriminate|discriminate]).
     destruct (h_kind (hget s h)) eqn:Hk.
-    + pose proof (KI_poll_start s h (mand m ALLEV) K Hv (mand_idem_all m)) as X.
+    + pose proof (KI_poll_start s h (mand m ALLEV) K Hv Hk Hopen (mand_idem_all m)) as X.
       destruct (poll_start s h (mand m ALLEV)) as [s1 rc]. cbn [fst snd] in *. split; [auto|repeat constructor].
     + destruct (mzero (mand m ALLEV)) eqn:Hz; cbn [fst snd]; (split; [|repeat constructor]); auto.
       apply KI_io_start; auto. apply mand_allev_errhup.
+      intros j Hr. destruct (k_reg _ s K _ _ Hr) as [X [Y _]]. symmetry. apply (k_rawx _ s K); auto.
   - (* OStop *)
     destruct (valid s h) eqn:Hv; [|split; [auto|repeat constructor]]. apply valid_livei in Hv.
     destruct (h_kind (hget s h)) eqn:Hk.
-    + cbn [fst snd]. split; [|repeat constructor]. apply (KI_poll_stop s h K Hv).
+    + cbn [fst snd]. split; [|repeat constructor]. rewrite poll_stop_seq by apply Hv. apply (KI_stop_seq s h K Hv Hk).
     + destruct (mzero (mand m ALLEV)); cbn [fst snd]; (split; [|repeat constructor]); auto.
-      apply KI_io_stop; auto. apply Hv.
+      pose proof (KI_io_stop s h (mand m ALLEV) K Hv) as X. unfold xraw in X. rewrite Hk in X. exact X.
   - (* OClose *)
     destruct (valid s h) eqn:Hv; [|split; [auto|repeat constructor]]. apply valid_livei in Hv.
     destruct (h_kind (hget s h)) eqn:Hk; cbn [fst snd]; (split; [|repeat constructor]).
-    + destruct (KI_poll_stop s h K Hv) as [K1 [Hun [Hgone [_ [Hfd _]]]]]. cbv zeta in *.
-      apply KI_close_flag; auto. rewrite Hfd. auto.
-    + destruct (KI_io_close s h K Hv) as [K1 [Hun Hgone]]. apply KI_close_flag; auto.
+    + rewrite poll_stop_seq by apply Hv.
+      destruct (KI_stop_seq s h K Hv Hk) as [K1 [Hun [_ [_ [_ [_ [Hkd _]]]]]]]. cbv zeta in *.
+      apply KI_close_flag; auto. unfold rawi. rewrite Hkd, Hk. discriminate.
+    + destruct (KI_io_close s h K Hv Hk) as [K1 [Hun [Hgone _]]]. apply KI_close_flag; auto.
   - (* OFeed *)
     destruct (valid s h && is_raw (hget s h)); [|split; [auto|repeat constructor]].
     cbn [fst snd]. split; [|repeat constructor]. unfold io_feed. destruct (_ || _); auto.
@@ -681,7 +796,6 @@ Proof.
     case_all; cbn [fst snd]; (split; [auto|repeat constructor]).
   - split; [auto|constructor].
 Qed.
-
 (* ---- the registration loop ------------------------------------------------------------
    [ideal_step s i]: what processing watcher i of the queue must achieve: the kernel has
    its descriptor with exactly the requested mask and w->events = w->pevents.  While
@@ -698,25 +812,25 @@ Lemma KI_ideal_step s i r s' :
   KI (set_wq s (i :: r)) ->
   length (hs s') = length (hs s) ->
   (forall j, kview (hget s' j) = kview (hget (hupd s i (fun h => h_set_ev h (h_pev h))) j)) ->
-  reg s' = reg s -> fdt s' = fdt s -> pairs s' = pairs s -> sq s' = sq s -> strict s' = strict s ->
+  reg s' = reg s -> fdt s' = fdt s -> pairs s' = pairs s -> sq s' = sq s ->
   aborted s' = aborted s ->
   (forall x y, ep s' x y = ideal_ep s (h_fd (hget s i)) (h_pev (hget s i)) x y) ->
   KI (set_wq s' r).
 Proof.
-  intros K Hlen Hv Hr Hf Hp Hq Hs Ha He.
-  destruct K. cbn [wq set_wq reg hs sq strict aborted fdt ep pairs] in *.
-  change (forall j, hget (set_wq s (i :: r)) j = hget s j) with (forall j, hget s j = hget s j) in *.
-  assert (Hg0 : forall j, hget (set_wq s (i :: r)) j = hget s j) by reflexivity.
+  intros K Hlen Hv Hr Hf Hp Hq Ha He.
+  destruct K. cbn [wq set_wq reg hs sq aborted fdt ep pairs] in *.
   assert (Hri : reg s (h_fd (hget s i)) = Some i) by (apply k_wq0; left; auto).
   destruct (k_reg0 _ _ Hri) as [Hli [_ Hpz]].
   assert (Hl : (i < length (hs s))%nat) by apply Hli.
-  destruct (fdt s (h_fd (hget s i))) as [o|] eqn:Hfo; [|exfalso; apply (k_fdopen0 i Hli); auto].
+  destruct (fdt s (h_fd (hget s i))) as [o|] eqn:Hfo; [|exfalso; apply (k_regopen0 _ _ Hri); auto].
   unfold ideal_ep in He. rewrite Hfo in He.
   assert (Hfd : forall j, h_fd (hget s' j) = h_fd (hget s j)).
   { intro j. pose proof (Hv j) as X. unfold kview in X. rewrite hget_hupd in X. destruct (_ && _); cbn in X; congruence. }
   assert (Hpv : forall j, h_pev (hget s' j) = h_pev (hget s j)).
   { intro j. pose proof (Hv j) as X. unfold kview in X. rewrite hget_hupd in X. destruct (_ && _); cbn in X; congruence. }
   assert (Hcl : forall j, h_closed (hget s' j) = h_closed (hget s j)).
+  { intro j. pose proof (Hv j) as X. unfold kview in X. rewrite hget_hupd in X. destruct (_ && _); cbn in X; congruence. }
+  assert (Hkd : forall j, h_kind (hget s' j) = h_kind (hget s j)).
   { intro j. pose proof (Hv j) as X. unfold kview in X. rewrite hget_hupd in X. destruct (_ && _); cbn in X; congruence. }
   assert (Hevo : forall j, j <> i -> h_ev (hget s' j) = h_ev (hget s j)).
   { intros j Hn. pose proof (Hv j) as X. unfold kview in X. rewrite hget_hupd_other in X by auto. congruence. }
@@ -725,10 +839,15 @@ Proof.
   assert (Hlv : forall j, livei (set_wq s' r) j <-> livei (set_wq s (i :: r)) j).
   { intro j. unfold livei. cbn [hs set_wq]. change (hget (set_wq s' r) j) with (hget s' j).
     change (hget (set_wq s (i :: r)) j) with (hget s j). rewrite Hlen, Hcl. tauto. }
+  assert (Hrw : forall j, rawi (set_wq s' r) j <-> rawi (set_wq s (i :: r)) j).
+  { intro j. unfold rawi. change (hget (set_wq s' r) j) with (hget s' j).
+    change (hget (set_wq s (i :: r)) j) with (hget s j). rewrite Hkd. tauto. }
   assert (Hother : forall fd j, reg s fd = Some j -> j <> i -> fd <> h_fd (hget s i)).
   { intros fd j Hc Hn ->. congruence. }
   inversion k_wqnd0 as [|? ? Hnotin Hnd]; subst.
-  constructor; cbn [wq set_wq reg hs sq strict aborted fdt ep pairs]; try congruence.
+  constructor; cbn [wq set_wq reg hs sq aborted fdt ep pairs].
+  - congruence.
+  - congruence.
   - intro j. change (hget (set_wq s' r) j) with (hget s' j). rewrite Hpv. apply k_pev0.
   - intros fd j Hc. rewrite Hr in Hc. rewrite Hlv. change (hget (set_wq s' r) j) with (hget s' j).
     rewrite Hfd, Hpv. apply k_reg0; auto.
@@ -739,6 +858,7 @@ Proof.
     + destruct (k_sync0 _ _ Hc) as [[Hin|Hin]|[E [o' [F G]]]]; [congruence|left; auto|].
       right. rewrite Hevo, Hpv by auto. split; auto. exists o'. split; auto. rewrite He.
       rewrite ep_set_other; auto. eapply Hother; eauto.
+  - exact Hnd.
   - intros j Hin. change (hget (set_wq s' r) j) with (hget s' j). rewrite Hr, Hfd. apply k_wq0. right; auto.
   - intros fd j Hc Hev. rewrite Hr in Hc. change (hget (set_wq s' r) j) with (hget s' j) in Hev. rewrite Hf.
     destruct (Nat.eq_dec j i) as [->|Hn].
@@ -747,15 +867,17 @@ Proof.
       rewrite He, ep_set_other; auto. eapply Hother; eauto.
   - intros j Hc. change (hget (set_wq s' r) j) with (hget s' j) in *. rewrite Hr, Hfd in Hc. rewrite Hpv.
     destruct (Nat.eq_dec j i) as [->|Hn]; [contradiction|]. rewrite Hevo by auto. apply k_unreg0; auto.
-  - intros a b Ha' Hb'. rewrite !Hlv in *. change (hget (set_wq s' r) a) with (hget s' a).
-    change (hget (set_wq s' r) b) with (hget s' b). rewrite !Hfd. apply k_uniq0; auto.
-  - intros j Hj. rewrite Hlv in Hj. change (hget (set_wq s' r) j) with (hget s' j). rewrite Hf, Hfd. apply k_fdopen0; auto.
+  - intros a b Ha' Hb' Hk. rewrite !Hlv in *. rewrite Hrw in Hk. change (hget (set_wq s' r) a) with (hget s' a).
+    change (hget (set_wq s' r) b) with (hget s' b). rewrite !Hfd. apply k_rawx0; auto.
+  - intros fd j Hc. rewrite Hr in Hc. rewrite Hf. eauto.
   - intros fd o' m Hm. rewrite He in Hm. rewrite Hf. unfold ep_set in Hm.
+    assert (Hjust : forall x, just None (set_wq s (i :: r)) x -> just None (set_wq s' r) x).
+    { intros x [Y|[[j [Y1 [Y2 Y3]]]|Y]]; [left; cbn [reg set_wq] in *; congruence| |discriminate].
+      right. left. exists j. rewrite Hlv, Hrw. change (hget (set_wq s' r) j) with (hget s' j). rewrite Hfd. auto. }
     destruct ((fd =? h_fd (hget s i)) && (o' =? o)%nat) eqn:Hb.
     + apply andb_prop in Hb. destruct Hb as [H1 H2]. apply Z.eqb_eq in H1. apply Nat.eqb_eq in H2. subst.
-      split; auto. exists i. rewrite Hlv. change (hget (set_wq s' r) i) with (hget s' i). rewrite Hfd. auto.
-    + destruct (k_ep0 _ _ _ Hm) as [X [j [Y Z]]]. split; auto. exists j. rewrite Hlv.
-      change (hget (set_wq s' r) j) with (hget s' j). rewrite Hfd. auto.
+      split; auto. left. cbn [reg set_wq]. congruence.
+    + destruct (k_ep0 _ _ _ Hm) as [X Y]. split; auto.
   - intros fd o' Hx. rewrite Hf in Hx. rewrite Hp. auto.
 Qed.
 
@@ -768,15 +890,14 @@ Proof.
   set (s1 := hupd s i (fun h => h_set_ev h (h_pev h))).
   change (ring s1) with (ring s). rewrite Hring.
   set (fd := h_fd (hget s i)). set (m := h_pev (hget s i)).
-  assert (Hri : reg s fd = Some i) by (apply (k_wq _ K); left; auto).
-  destruct (k_reg _ K _ _ Hri) as [Hli _].
-  pose proof (k_fdopen _ K i Hli) as Hfo. cbn [fdt set_wq] in Hfo.
-  change (hget (set_wq s (i :: r)) i) with (hget s i) in Hfo. fold fd in Hfo.
+  assert (Hri : reg s fd = Some i) by (apply (k_wq _ _ K); left; auto).
+  destruct (k_reg _ _ K _ _ Hri) as [Hli _].
+  pose proof (k_regopen _ _ K _ _ Hri) as Hfo. cbn [fdt set_wq] in Hfo.
   destruct (fdt s fd) as [o|] eqn:Hf; [|congruence].
   assert (Hstep : forall s', hs s' = hs s1 -> reg s' = reg s -> fdt s' = fdt s -> pairs s' = pairs s ->
-                  sq s' = sq s -> strict s' = strict s -> aborted s' = aborted s -> ring s' = ring s ->
+                  sq s' = sq s -> aborted s' = aborted s -> ring s' = ring s ->
                   ep s' = ep_set (ep s) fd o (Some m) -> KI (set_wq (reg_loop s' r) [])).
-  { intros s' H1 H2 H3 H4 H5 H6 H7 H8 H9. apply IH; [congruence|].
+  { intros s' H1 H2 H3 H4 H5 H7 H8 H9. apply IH; [congruence|].
     eapply (KI_ideal_step s i r s'); eauto.
     - rewrite H1. apply hupd_length.
     - intro j. unfold hget. rewrite H1. reflexivity.
@@ -801,7 +922,7 @@ Proof.
       rewrite Hx. cbn. apply Hstep; reflexivity.
   - (* MOD *)
     assert (Hne : ep s fd o <> None).
-    { destruct (k_ev _ K fd i Hri Hz) as [o' [F G]]. cbn [fdt ep set_wq] in F, G. congruence. }
+    { destruct (k_ev _ _ K fd i Hri Hz) as [o' [F G]]. cbn [fdt ep set_wq] in F, G. congruence. }
     pose proof (Hmod Hne) as Y. pose proof (Hmode Hne) as Z.
     destruct (epoll_ctl s1 CMod fd m) as [s3 e2]. cbn [fst snd] in *. subst e2. cbn. exact Y.
 Qed.
@@ -996,16 +1117,15 @@ Proof.
   set (fd := h_fd (hget s i)). set (m := h_pev (hget s i)).
   set (op := if mzero (h_ev (hget s i)) then CAdd else CMod).
   set (s' := set_sq s1 (sq s1 ++ [(op, fd, m)])).
-  assert (Hri : reg s fd = Some i) by (apply (k_wq _ K i); left; auto).
-  destruct (k_reg _ K _ _ Hri) as [Hli _].
-  pose proof (k_fdopen _ K i Hli) as Hfo. cbn [fdt set_wq virt set_sq set_ep] in Hfo.
-  change (hget (set_wq (virt s) (i :: r)) i) with (hget s i) in Hfo. fold fd in Hfo.
+  assert (Hri : reg s fd = Some i) by (apply (k_wq _ _ K i); left; auto).
+  destruct (k_reg _ _ K _ _ Hri) as [Hli _].
+  pose proof (k_regopen _ _ K _ _ Hri) as Hfo. cbn [fdt set_wq virt set_sq set_ep] in Hfo.
   destruct (fdt s fd) as [o|] eqn:Hf; [|congruence].
   destruct W as [W1 [W2 W3]].
   assert (Hnotin : ~ In fd (map efd (sq s))).
   { intros Hin. apply in_map_iff in Hin. destruct Hin as [ent [He Hin]]. destruct (W3 _ Hin) as [j [Hj Hn]].
     rewrite He, Hri in Hj. inversion Hj; subst. apply Hn. left; auto. }
-  pose proof (k_wqnd _ K) as Hnd. cbn [wq set_wq] in Hnd. inversion Hnd as [|? ? Hir Hndr]; subst.
+  pose proof (k_wqnd _ _ K) as Hnd. cbn [wq set_wq] in Hnd. inversion Hnd as [|? ? Hir Hndr]; subst.
   assert (K' : KI (set_wq (virt s') r)).
   { eapply (KI_ideal_step (virt s) i r (virt s')); eauto.
     - cbn. apply upd_length.
@@ -1020,7 +1140,7 @@ Proof.
       + destruct (W2 _ Hin) as [A [o' [B C]]]. split; auto. exists o'. split; auto.
       + split; [unfold op; destruct (mzero _); discriminate|]. exists o. split; [exact Hf|].
         cbn [fst snd]. intros Hop. unfold op in Hop. destruct (mzero (h_ev (hget s i))) eqn:Hz; [discriminate|].
-        destruct (k_ev _ K fd i Hri Hz) as [o' [F G]]. cbn [fdt ep set_wq virt set_sq set_ep] in F, G.
+        destruct (k_ev _ _ K fd i Hri Hz) as [o' [F G]]. cbn [fdt ep set_wq virt set_sq set_ep] in F, G.
         rewrite vfold_other in G by auto.
         change (ep s fd o <> None). congruence.
     - intros ent Hin. apply in_app_or in Hin. destruct Hin as [Hin|[<-|[]]].
@@ -1056,12 +1176,12 @@ Proof.
   destruct (reg_loop_ring_wq (wq s) (set_wq s [])) as [Hrl Hwl]. cbn [ring wq set_wq] in Hrl, Hwl.
   rewrite Hrl. destruct (ring s) eqn:Hring.
   - assert (K0 : KI (set_wq (virt (set_wq s [])) (wq s))).
-    { eapply KI_ext; [..|exact K]; try reflexivity; intros; cbn; rewrite (k_sq s K); reflexivity. }
+    { eapply KI_ext; [..|exact K]; try reflexivity; intros; cbn; rewrite (k_sq _ s K); reflexivity. }
     assert (W0 : ringW (set_wq s []) (wq s)).
-    { unfold ringW. cbn [sq set_wq]. rewrite (k_sq s K). split_all; [constructor|intros ? []|intros ? []]. }
+    { unfold ringW. cbn [sq set_wq]. rewrite (k_sq _ s K). split_all; [constructor|intros ? []|intros ? []]. }
     destruct (KI_reg_loop_ring (wq s) (set_wq s []) Hring K0 W0) as [R1 [[W1 [W2 _]] [R3 R4]]].
     set (s1 := reg_loop (set_wq s []) (wq s)) in *.
-    assert (Ha1 : aborted s1 = false) by apply (k_abort _ R1).
+    assert (Ha1 : aborted s1 = false) by apply (k_abort _ _ R1).
     destruct (ctl_flush_all_spec s1 Ha1 W1 W2) as [F1 [F2 [F3 F4]]]. cbv zeta in *.
     destruct F2 as [A1 [A2 [A3 [A4 [A5 [A6 A7]]]]]].
     split; [|rewrite A3; exact Hwl].
@@ -1083,11 +1203,11 @@ Proof.
   - intros H. inversion H; subst. auto.
 Qed.
 
-Lemma KI_cb_pre s i ev efd rep : KI s -> (i < length (hs s))%nat -> KI (fst (cb_pre s i ev efd rep)).
+Lemma KI_cb_pre s i ev efd rep : KI s -> livei s i -> KI (fst (cb_pre s i ev efd rep)).
 Proof.
-  intros K Hl. unfold cb_pre. destruct (h_kind (hget s i)); [|auto].
+  intros K Hl. unfold cb_pre. destruct (h_kind (hget s i)) eqn:Hk; [|auto].
   destruct (m_err ev && negb (m_pri ev)); [|auto]. cbn [fst].
-  apply KI_hupd_kview; [intros; reflexivity|]. apply KI_io_stop; auto.
+  apply (KI_stop_seq s i K Hl Hk).
 Qed.
 
 Lemma EK_cb_pre s i ev efd rep : EK (snd (cb_pre s i ev efd rep)).
@@ -1102,9 +1222,9 @@ Proof.
   - intros s e rest K Hb.
     assert (K0 : KI (set_batch s rest)) by (apply KI_set_batch; auto).
     destruct (dispatch_target (set_batch s rest) e) as [|fd|i ev o2 r2] eqn:Ht; auto.
-    + apply dispatch_target_del in Ht. apply KI_del; auto.
+    + apply dispatch_target_del in Ht. apply (KI_del None); auto.
     + destruct e as [[fd orig] rep]. apply dispatch_target_call in Ht. destruct Ht as [_ [Hr _]].
-      destruct (k_reg _ K0 _ _ Hr) as [[Hl _] _]. split; [apply KI_cb_pre; auto|apply EK_cb_pre].
+      destruct (k_reg _ _ K0 _ _ Hr) as [Hl _]. split; [apply KI_cb_pre; auto|apply EK_cb_pre].
   - intros s i rest K Hb.
     assert (K0 : KI (set_prun s rest)) by (eapply KI_same; [..|exact K]; reflexivity).
     split; [|apply EK_cb_pre]. unfold cb_pre. destruct (h_kind _); cbn; auto.
@@ -1119,10 +1239,10 @@ Proof.
   - exact Logic.I.
 Qed.
 
-(* C14_kernel_in_sync_at_block, under the strict discipline *)
-Theorem kernel_in_sync : forall fdo pw beh os rng,
-  Forall EK (snd (run fdo pw beh (sinit rng true) os)).
+(* C14_kernel_in_sync_at_block: every script the guards admit, both disciplines *)
+Theorem kernel_in_sync : forall fdo pw beh os rng strct,
+  Forall EK (snd (run fdo pw beh (sinit rng strct) os)).
 Proof.
-  intros. destruct (run fdo pw beh (sinit rng true) os) as [s' evs] eqn:H.
+  intros. destruct (run fdo pw beh (sinit rng strct) os) as [s' evs] eqn:H.
   eapply run_KI in H; [|apply KI_init]. apply H.
 Qed.
